@@ -100,8 +100,8 @@ UNITS["C12"] = [
 
 UNITS["C18"] = [
     dict(kind="verus", name="c18_remove", template="specs/c18_remove.vrs",
-         under_contract=["Members::remove_member", "MemberState::new", "MemberState::is_ring0"],
-         vacuity=["remove_member", "new", "is_ring0"], replay="c18_members",
+         under_contract=["Members::remove_member", "Members::add_member", "MemberState::new", "MemberState::is_ring0"],
+         vacuity=["remove_member", "add_member", "new", "is_ring0"], replay="c18_members",
          assumptions=["std BTreeMap contract (lib/maps.vrs); derived PartialEq on Timestamp is field equality"]),
     dict(kind="verus", name="c18_add_rtt", template="specs/c18_add_rtt.vrs",
          under_contract=["Members::add_rtt"], vacuity=["add_rtt"], replay="c18_members",
@@ -151,8 +151,11 @@ UNITS["C17"] = [
 UNITS["C16"] = [
     dict(kind="structural", name="c16_fresh_id", check="cluster_id_fresh", file="crates/klukai-agent/src/agent/handlers.rs", fn="spawn_incoming_connection_handlers",
          trusted=["syntactic reading of the three sites (vx/structural.py cluster_id_fresh); Agent::cluster_id() loads the current value (ArcSwap)"]),
+    dict(kind="verus", name="c16_add_member", template="specs/c18_remove.vrs",
+         under_contract=["Members::add_member"], vacuity=["add_member"],
+         assumptions=["same template as unit c18_remove: unbounded proof that a newer identity replaces address, timestamp AND cluster id in the member table (what the sync-candidate and broadcast-target filters read); `or_insert_with` desugared to the entry match; recalculate_rings by its frame contract"]),
     dict(kind="kani", name="c16_members", crate="kani/c18_members",
-         harnesses=[dict(name="add_member_contract", bound="<=2 existing members, ids/addrs over 4 values, ts/cluster full u64/u16; inductive step from an arbitrary state")],
+         harnesses=[dict(name="add_member_contract", tier="thorough", bound="<=2 existing members, ids/addrs over 4 values, ts/cluster full u64/u16; inductive step from an arbitrary state")],
          trusted=["same stand-ins as unit c18_members"],
          assumptions=["the member table's cluster id is what the sync-candidate and broadcast-target filters read: a newer identity's cluster must replace the old one"]),
     dict(kind="verus", name="c16_uni_stream", template="specs/c16_uni_stream.vrs",
